@@ -273,7 +273,7 @@ pub proof fn lemma_struct_alignment(is_packed: bool, mfa: int, la: usize, req: b
 UNIT = {
     "name": "layout",
     "env": [os.path.join(ENV, "layout_env.rs")],
-    "declared_trusted": {r"external_body": 27, r"\bexternal\b": 0},
+    "declared_trusted": {r"external_body": 31, r"\bexternal\b": 0},
     "items": [
         {"kind": "const", "file": "bindgen/ir/ty.rs", "name": "RUST_DERIVE_IN_ARRAY_LIMIT"},
         {"kind": "const", "file": SL, "name": "MAX_GUARANTEED_ALIGN"},
@@ -511,6 +511,30 @@ pub proof fn lemma_blob(l: Layout)
              "r ==> (self.max_field_align >= 16 || self.max_field_align < layout.align)",
          ]},
         {"kind": "raw", "label": "lemma_struct_alignment", "text": ALIGN_LEMMA},
+        # ---- the layout the tracker is given for a member (saw_field minus its final call, statements R18): the Rust field is as
+        # aligned as the type BEHIND a typedef - a type alias cannot carry an `aligned` attribute (defect F25)
+        {"kind": "fn", "file": SL, "name": "member_layout_for_tracker", **TR, "ret": "r",
+         "closure": {"enclosing": "saw_field", "anchor": "let mut field_layout =", "nth": 0, "stmt": "rest",
+                     "signature": "fn member_layout_for_tracker(self_: &StructLayoutTracker, field_name: &str, field_ty: &Type, field_offset: Option<usize>) -> (r: Option<Layout>)",
+                     "prefix": "{", "suffix": "}"},
+         "subst": [
+             ("std::ptr::eq(canonical_ty, field_ty)", "type_ptr_eq(self_.ctx, canonical_ty, field_ty)", 0, "R21 pointer identity of IR types (if present)"),
+             ("self.saw_field_with_layout(field_name, field_layout, field_offset)", "Some(field_layout)", 1, "R18: the layout handed to saw_field_with_layout is the result"),
+             ("self", "self_", 1, "R18 captured self"),
+         ],
+         "proof_before": [("field_layout.size =", "assert(forall|a: int, b: int| 0 <= a < 0x8000_0000 && 0 <= b < 0x4000_0000 ==> #[trigger] (a * b) < 0x2000_0000_0000_0000) by (nonlinear_arith);")],
+         "requires": ["field_ty.spec_layout(self_.ctx).is_some() ==> valid_layout(field_ty.spec_layout(self_.ctx).unwrap())",
+                      # magnitudes (as everywhere in this unit): element sizes, alignments and array lengths below 2^30
+                      "field_ty.spec_canonical(self_.ctx).spec_array().is_some() ==> ({ let a = field_ty.spec_canonical(self_.ctx).spec_array().unwrap(); let l = self_.ctx.spec_type(a.0).spec_layout(self_.ctx); "
+                      "a.1 < 0x4000_0000 && (l.is_some() ==> l.unwrap().size < 0x4000_0000 && l.unwrap().align < 0x4000_0000) })"],
+         "ensures": [
+             "r.is_some() == field_ty.spec_layout(self_.ctx).is_some()",
+             # not an over-aligned array element (the 'ultra hack' region is left alone): size as clang reports, alignment =
+             # the smaller of the typedef's and the aliased type's
+             "r.is_some() && field_ty.spec_canonical(self_.ctx).spec_array().is_none() ==> r.unwrap().size == field_ty.spec_layout(self_.ctx).unwrap().size "
+             "&& r.unwrap().align == ({ let a = field_ty.spec_layout(self_.ctx).unwrap().align; let c = field_ty.spec_canonical(self_.ctx).spec_layout(self_.ctx); "
+             "if !field_ty.spec_is_canonical(self_.ctx) && c.is_some() && c.unwrap().align != 0 && c.unwrap().align < a { c.unwrap().align } else { a } })",
+         ]},
         {"kind": "fn", "file": SL, "name": "is_rust_union", **TR, "ret": "r", "ensures": ["r == self.is_rust_union"]},
         # ---- the tail of <CompInfo as CodeGenerator>::codegen that completes size and alignment (statement, R18)
         {"kind": "fn", "file": CGM, "name": "comp_tail_layout", "impl": r"^impl CodeGenerator for CompInfo$", "ret": "r_unit",
